@@ -1204,3 +1204,59 @@ def _shallow_fn(fn):
             if isinstance(ch, (ast.FunctionDef, ast.AsyncFunctionDef, ast.Lambda, ast.ClassDef)):
                 continue
             todo.append(ch)
+
+
+# ----------------------------------------------------------------------------------------------- loops over a literal sequence
+
+def unroll_literal_loops(modules, max_items=4):
+    """`for q in (self.a, self.b): BODY` over a literal tuple/list of call-free expressions, where BODY neither rebinds q nor leaves the loop
+    (break/continue/else) and q is not read after the loop: BODY[q := self.a]; BODY[q := self.b].  "Do the same for each of these two queues" then
+    reads like the code that names them one after the other."""
+    log = []
+
+    def pure_item(e):
+        return not any(isinstance(n, (ast.Call, ast.Await, ast.Yield, ast.YieldFrom, ast.NamedExpr, ast.Lambda)) for n in ast.walk(e))
+
+    for m in modules.values():
+        for fn in [n for n in ast.walk(m.tree) if isinstance(n, ast.FunctionDef)]:
+            changed = []
+
+            def rewrite(stmts, following):
+                out = []
+                for i, st in enumerate(stmts):
+                    rest = stmts[i + 1:] + following
+                    for fld in ('body', 'orelse', 'finalbody'):
+                        sub = getattr(st, fld, None)
+                        if isinstance(sub, list) and sub and not isinstance(st, (ast.FunctionDef, ast.ClassDef)):
+                            # statements after a loop body may run again: a name read anywhere later (or in the loop itself) counts as "read after"
+                            setattr(st, fld, rewrite(sub, rest + ([st] if isinstance(st, (ast.For, ast.While)) else [])))
+                    if isinstance(st, ast.Try):
+                        for hd in st.handlers:
+                            hd.body = rewrite(hd.body, rest)
+                    if isinstance(st, ast.For) and isinstance(st.target, ast.Name) and isinstance(st.iter, (ast.Tuple, ast.List)) and not st.orelse \
+                            and 1 <= len(st.iter.elts) <= max_items and all(pure_item(e) for e in st.iter.elts):
+                        v = st.target.id
+                        body_nodes = [n for b in st.body for n in ast.walk(b)]
+                        rebinds = any(isinstance(n, ast.Name) and n.id == v and isinstance(n.ctx, (ast.Store, ast.Del)) for n in body_nodes)
+                        leaves = any(isinstance(n, (ast.Break, ast.Continue)) for n in body_nodes)       # (conservative: also those of inner loops)
+                        closure = any(isinstance(n, (ast.FunctionDef, ast.Lambda)) for n in body_nodes)
+                        read_after = any(isinstance(n, ast.Name) and n.id == v for s2 in rest if s2 is not st for n in ast.walk(s2))
+                        if not (rebinds or leaves or closure or read_after):
+                            for e in st.iter.elts:
+                                class Sub(ast.NodeTransformer):
+                                    def visit_Name(self, n, e=e):
+                                        if n.id == v and isinstance(n.ctx, ast.Load):
+                                            return ast.copy_location(copy.deepcopy(e), n)
+                                        return n
+                                for b in st.body:
+                                    nb = Sub().visit(copy.deepcopy(b))
+                                    out.append(nb)
+                            changed.append('for %s in %s' % (v, ast.unparse(st.iter)))
+                            continue
+                    out.append(st)
+                return out
+            fn.body = rewrite(fn.body, [])
+            if changed:
+                ast.fix_missing_locations(fn)
+                log.append(('%s.%s' % (m.name, fn.name), [], 'loop over a literal sequence unrolled: %s' % '; '.join(changed)))
+    return log
